@@ -18,6 +18,7 @@ import (
 func init() {
 	thoroughExtras = func(r *Run) {
 		seededSelfTest(r)
+		benignSelfTest(r)
 		uapiDrift(r)
 	}
 }
@@ -108,6 +109,117 @@ func seededSelfTest(r *Run) {
 	}
 	if detected+missed+skipped > 0 {
 		r.Notes = append(r.Notes, fmt.Sprintf("selftest: %d seeded changes detected, %d missed, %d skipped (checker self-test on scratch copies; not a verdict on the property)", detected, missed, skipped))
+	}
+}
+
+// benignSelfTest applies every behaviour-preserving refactoring kept under /verif/benign that
+// touches files this property reads to a scratch copy and expects the property's rules to
+// stay silent. Like the seeded self-test it tests the checker and only produces notes.
+func benignSelfTest(r *Run) {
+	dir := filepath.Join(verifDir(), "benign")
+	ents, err := os.ReadDir(dir)
+	if err != nil {
+		return
+	}
+	relevant := func(file string) bool {
+		in := func(ps ...string) bool {
+			for _, p := range ps {
+				if p == r.Prop {
+					return true
+				}
+			}
+			return false
+		}
+		switch {
+		case file == "reassembler.go":
+			return in("C01", "C02", "C03", "C10", "C11", "C19")
+		case file == "audit.go" || file == "netlink.go":
+			return in("C08", "C16", "C17", "C18")
+		case strings.HasPrefix(file, "auparse/"):
+			return in("C04", "C05", "C12", "C20", "C15", "C09")
+		case strings.HasPrefix(file, "aucoalesce/"):
+			return in("C09", "C15", "C20")
+		case strings.HasPrefix(file, "rule/flags/"):
+			return in("C14", "C07")
+		case strings.HasPrefix(file, "rule/"):
+			return in("C06", "C07", "C13", "C20", "C14")
+		}
+		return false
+	}
+	base := 0
+	for _, o := range r.Obls {
+		if o.Status != StOK && o.Status != StInfo && o.Arch == "" {
+			base++
+		}
+	}
+	silent, alarms, skipped := 0, 0, 0
+	for _, e := range ents {
+		n := e.Name()
+		patch := filepath.Join(dir, n, "patch.diff")
+		b, err := os.ReadFile(patch)
+		if err != nil {
+			continue
+		}
+		mine := false
+		for _, l := range strings.Split(string(b), "\n") {
+			if strings.HasPrefix(l, "+++ b/") && relevant(strings.TrimPrefix(l, "+++ b/")) {
+				mine = true
+			}
+		}
+		if !mine {
+			continue
+		}
+		tmp, err := os.MkdirTemp("", "vcheck-benign-")
+		if err != nil {
+			continue
+		}
+		func() {
+			defer os.RemoveAll(tmp)
+			if out, err := exec.Command("cp", "-a", repoDir()+"/.", tmp).CombinedOutput(); err != nil {
+				r.Notes = append(r.Notes, "selftest: cannot copy the repository: "+string(out))
+				skipped++
+				return
+			}
+			ap := exec.Command("git", "apply", patch)
+			ap.Dir = tmp
+			if err := ap.Run(); err != nil {
+				skipped++
+				return
+			}
+			w, err := Load(tmp, "amd64")
+			if err != nil {
+				skipped++
+				r.Notes = append(r.Notes, "selftest: refactoring "+n+" does not load: "+err.Error())
+				return
+			}
+			sub := NewRun(r.Prop, "quick")
+			sub.W = w
+			func() {
+				defer func() { recover() }()
+				props[r.Prop](sub, w)
+			}()
+			bad := 0
+			for _, o := range sub.Obls {
+				if o.Status != StOK && o.Status != StInfo {
+					bad++
+				}
+			}
+			// floors are evaluated in Finish; approximate: a rule that found fewer instances than its floor
+			for _, ri := range sub.Rules {
+				if ri.Found < ri.Floor {
+					bad++
+				}
+			}
+			if bad > base {
+				alarms++
+				r.Notes = append(r.Notes, "selftest: behaviour-preserving refactoring "+n+" raises an alarm in "+r.Prop+" (a false alarm of the checker)")
+			} else {
+				silent++
+			}
+		}()
+	}
+	if silent+alarms+skipped > 0 {
+		r.Notes = append(r.Notes, fmt.Sprintf("selftest: %d behaviour-preserving refactorings silent, %d raise an alarm, %d skipped (no longer apply)", silent, alarms, skipped))
 	}
 }
 
